@@ -103,6 +103,9 @@ class Lifespan:
         if not self.supported:
             return
 
+        if self.shutdown.is_set():
+            return  # The app has already left the lifespan scope
+
         async def _shutdown() -> None:
             # The app may not be taking the message either
             await self.app_queue.put({"type": "lifespan.shutdown"})
